@@ -2455,6 +2455,12 @@ class SSHConnection(SSHPacketHandler, asyncio.Protocol):
         self._ignore_first_kex = (first_kex_follows and
                                   self._kex.algorithm != peer_kex_algs[0])
 
+        if self.is_client() and not kex_alg.startswith(b'gss-'):
+            self._kex.set_host_key_alg(
+                self._choose_alg('server host key',
+                                 self._server_host_key_algs or [],
+                                 peer_host_key_algs))
+
         if self.is_server():
             # This method is only in SSHServerConnection
             # pylint: disable=no-member
